@@ -264,6 +264,30 @@ func (c *rtConn) ReceiveMessage(ctx context.Context) (pgproto3.BackendMessage, e
 		}
 		return nil, fmt.Errorf("timeout: %w", context.DeadlineExceeded)
 	}
+	// nil messages (pglogrepl hands back (nil, nil) for messages it swallows) and keepalives that do not
+	// ask for a reply: the client reads on; only its progress ticker makes it speak
+	rtKeepalive := func() pgproto3.BackendMessage {
+		d := make([]byte, 18)
+		d[0] = pglogrepl.PrimaryKeepaliveMessageByteID
+		binary.BigEndian.PutUint64(d[1:9], 1000)
+		return &pgproto3.CopyData{Data: d}
+	}
+	switch w.c.Kind {
+	case "nil-messages":
+		time.Sleep(time.Duration(w.c.GapMs) * time.Millisecond)
+		return nil, nil
+	case "keepalives-no-reply":
+		time.Sleep(time.Duration(w.c.GapMs) * time.Millisecond)
+		return rtKeepalive(), nil
+	case "keepalive-then-nil":
+		// every slow read (a keepalive) is followed at once by a nil message, so a tick that fired during
+		// the slow read is found at the head of the nil iteration
+		if w.n%2 == 0 {
+			time.Sleep(time.Duration(w.c.GapMs+w.c.ProgressMs) * time.Millisecond)
+			return rtKeepalive(), nil
+		}
+		return nil, nil
+	}
 	time.Sleep(time.Duration(w.c.GapMs) * time.Millisecond)
 	w.lsn++
 	if w.lsn == 1 {
@@ -415,8 +439,8 @@ func init() {
 		j, _ := json.Marshal(r)
 		return string(j) + "\n"
 	}, Run: func(rng *rand.Rand, n int, corpusDir string, rep *core.Report) string {
-		rep.Rule = "wall-clock TEST of the runtime residue of C18 (not a proof): the real client with a 20-40 ms progress interval over a fake connection that streams one long transaction every 2-6 ms, or is idle (receives time out after 30-60 ms), or whose consumer blocks (output channel full), or alternates; the longest silence towards PostgreSQL must stay below progress interval + receive timeout + 250 ms slack. A case is reported only after failing 3 times in a row. Non-trivial: every case."
-		kinds := []string{"steady-data", "idle", "blocked-output", "mixed"}
+		rep.Rule = "wall-clock TEST of the runtime residue of C18 (not a proof): the real client with a 20-40 ms progress interval over a fake connection that streams one long transaction every 2-6 ms, or is idle (receives time out after 30-60 ms), or whose consumer blocks (output channel full), or alternates, or sends only nil messages / keepalives without reply request / a slow keepalive followed at once by a nil message; the longest silence towards PostgreSQL must stay below progress interval + receive timeout + 250 ms slack. A case is reported only after failing 3 times in a row. Non-trivial: every case."
+		kinds := []string{"steady-data", "idle", "blocked-output", "mixed", "nil-messages", "keepalives-no-reply", "keepalive-then-nil"}
 		cases := make([]CCase, n)
 		for i := range cases {
 			cases[i] = CCase{Kind: kinds[i%len(kinds)], ProgressMs: 20 + rng.Intn(21), RecvMs: 30 + rng.Intn(31), GapMs: 2 + rng.Intn(5), DurMs: 700 + rng.Intn(300)}
